@@ -319,6 +319,26 @@ CHECKS = {
               "physical interface only."),
         technique="TLA+ configuration lattice with route coverage (TLC) + definition terms incl. an independent Lagrange-multiplier coupled solution, replayed on every configuration",
     ),
+    "C06": dict(
+        cat="exploration",
+        text=("specs/CraigBampton.tla: descriptors of free 3-D structures (4-5, thorough 6, six-DOF joints at integer coordinates with "
+              "lumped masses and inertias; every ordered boundary of 1-3 grids; all / some modes; boundary output system R/C/S) with "
+              "the exact 6x6 rigid-body mass matrix about the reference grid, its boundary and interior parts computed by TLC in "
+              "integers (MassSplits, TotalMassInvariant, ParallelAxis on every descriptor), and the state machine Reorder / Convert / "
+              "Ground / BreakGeometry (BoundaryIsPermutation, UnitsBounded, DefectSticky on every history). The driver builds each "
+              "structure with springs K_e = L' k L (rigid motion exactly in the null space), does its own CB reduction, applies the "
+              "grids' displacement frames (terms of specs/CoordSys.tla), shuffles the matrix layout, and runs cbcheck: rbs = rbg = "
+              "rbe; rb' m rb = the spec's integer matrix for all three; cgmass recovers mass / cg / inertia; K rb = 0; sum of "
+              "effective mass + boundary part = total (all modes) or <= interior part (some); fixed-base frequencies. Every history "
+              "is replayed through cbreorder / cbconvert / uset_convert with the last step through cbcheck's own bseto / conv "
+              "arguments: order, scaled mass properties, free-free frequencies, DRM responses, inverses; grounded / broken-geometry "
+              "models must show it in the grounding force / rigid-body mode mismatch. cbtf: residual of the full equations with "
+              "boundary-coupled damping, real and complex stiffness, 0 Hz included. cgmass on random rigid 6x6 masses."),
+        ref="4/C06",
+        note=("Trusted: TLC, the driver's own CB reduction (scipy.linalg.eigh / solve), generic evaluator. Report text is not compared. "
+              "One genuine defect repaired (USET reorder for non-involutive boundary permutations, fix: b05a341)."),
+        technique="TLA+ descriptor model with exact integer mass properties + reorder/convert/defect state machine (TLC) replayed through cbcheck, cbconvert, cbreorder; cbtf equation residual",
+    ),
     "C03": dict(
         cat="exploration",
         text=("specs/Srs.tla: the option lattice 6 stype x 4 ic x 3 time x 6 peak x eqsine (864 points), the integer index model "
